@@ -80,9 +80,10 @@ def guarded_check(assertions, timeout_ms, on_sat=None, grace=1.5, on_unknown=Non
     if pid == 0:
         try:
             os.close(r)
+            from .purify import purify
             s = z3.Solver()
             s.set("timeout", int(timeout_ms))
-            for c in assertions:
+            for c in purify(assertions):
                 s.add(c)
             res = s.check()
             out = {"v": str(res)}
@@ -160,8 +161,9 @@ def feasible(pc, extra):
         return v != "unsat"
     FEAS_STATS["cli"] += 1
     try:
+        from .purify import purify
         s = z3.Solver()
-        for c in cs:
+        for c in purify(cs):
             s.add(c)
         from .verify import _z3_old
         v = _z3_old(s.to_smt2(), 2000)
